@@ -45,7 +45,9 @@ PROP = {
                    "successful refresh; failed refreshes invisible), refresh_snapshot_atomic(_general) (every interleaving of refresher steps with a validation that reads the register "
                    "once: verdict = the one under the register after some whole number of refreshes - old or new, never a mixture), serial_fetch_register (fetches whose responses are slow while the issuer rotates: with the one caller of updateKeys the code has, "
                    "under EVERY schedule of serve/install/rotate events the register is the version of the newest completed fetch, at most the newest version served, and never goes back) with "
-                   "two_fetchers_register_goes_back (a second caller breaks it), scrape_never_checked, missing_param_rejected, "
+                   "two_fetchers_register_goes_back (a second caller breaks it); the judge of the overlap cases is itself proved: overlap_checker_decides (accepts exactly the logs explained by forward-moving "
+                   "versions within the served/returned bounds; the greedy choice loses nothing) and serial_model_logs_accepted (EVERY log of the one-fetcher model with announces reading the register between start and end "
+                   "is accepted, so reason 22 always means behaviour the model cannot show; concrete accepted / rejected runs as examples), scrape_never_checked, missing_param_rejected, "
                    "jwt_legacy_ignores_exp_refuted / _nbf_refuted (F4: the pre-fix code never looks at exp/nbf). RSA/JSON/base64 are oracles (Section variables / shipped per case); "
                    "the data race on hook.publicKeys (F5) is outside the model and shown by `-race` in the correspondence run. Tied to middleware/jwt/jwt.go by real tokens through "
                    "the real hook: verdict and error compared with the model per request along refresh histories.",
